@@ -236,6 +236,8 @@ def _formula_cases(tier, rng):
         ('=ISERROR(UNDEF_A)', {}, True), ('=IF(ISERROR(UNDEF_A),1,2)+IF(ISERROR(UNDEF_B),10,20)', {}, 11),
         ('=IFERROR(UNDEF_A,1)+IFERROR(UNDEF_B,1)', {}, 2), ('=IF(FALSE,UNDEF_A,UNDEF_B)', {}, REF),
         ('=#REF!+1', {}, REF), ('=IFERROR(#REF!,4)', {}, 4), ('=ISERROR(#REF!)', {}, True),
+        # undefined names that begin with a letter outside ASCII
+        ('=übersicht*2', {}, REF), ('=IFERROR(Été_2024,7)', {}, 7), ('=ISERROR(α_rate)', {}, True), ('=ñame+1', {}, REF),
         # references into a deleted sheet, as Excel rewrites them
         ('=#REF!A1+1', {}, REF), ('=IFERROR(#REF!$A$1,4)', {}, 4), ('=SUM(#REF!A1:B2)', {}, REF), ('=ISERROR(#REF!A:A)', {}, True),
     ]
@@ -498,7 +500,7 @@ BOUNDED = [
           'function, _xlfn. function, undefined name) injected into a workbook with a linked workbook: loads and calculates, healthy cells keep their values, '
           'faulty cells hold an error that IFERROR / ISERROR intercept and arithmetic propagates', parallel=True, weight=lambda c: 1),
     Stage('B1:single-formulas-with-unresolved-items', 'C14', _formula_cases, _check_formula,
-          '23 formulas with unknown functions (incl. _xlfn.), undefined names and #REF! literals, bare and under IFERROR / ISERROR / IF',
+          '27 formulas with unknown functions (incl. _xlfn.), undefined names (also with letters outside ASCII) and #REF! literals, bare and under IFERROR / ISERROR / IF',
           parallel=False),
 ]
 
